@@ -1,6 +1,224 @@
-//! C05: not implemented yet.
-use crate::util::Args;
-pub fn main(_a: &Args) {
-    eprintln!("c05: not implemented");
-    std::process::exit(2);
+//! C05 / C01 / C04: the implementation side of the font-level checks (`lib/props/c05.py`,
+//! `c01.py`, `c04.py`; also driven by `lib/fontio_selftest.py`).  Builds abstract fonts through
+//! norad's public API, saves, loads and dumps them (`fontio.rs`), generates them (`fontio_gen.rs`).
+//!
+//!   harness c05 --out DIR --seed N [--count K] [--size 0|1|2] [--gen class,class|all]
+//!       for k in 0..K: DIR/case_k/font.json (abstract input), built.json (dump of the built
+//!       value), n.ufo (Font::save_with_options, options drawn per case -> options.json),
+//!       loaded.json (dump of Font::load); *_error.txt where a step failed.
+//!   harness c05 --out DIR --font FILE
+//!       the same for the single abstract font stored in FILE (case_0).
+//!   harness c05 --out DIR --fonts FILE
+//!       the same for every font of the JSON array stored in FILE (case_0 ...).
+//!   harness c05 --load DIR
+//!       for every DIR/case_*/w.ufo: loaded.json = dump of Font::load (or load_error.txt).
+//!   harness c05 --dump UFO --to FILE
+//!       dump of Font::load(UFO) (or {"__load_error__": ...}).
+//!   harness c05 --out DIR ... --two-opts
+//!       additionally saves every font a second time with independently drawn options
+//!       (n2.ufo, options2.json, loaded2.json).
+//!   harness c05 --resave DIR
+//!       for every DIR/case_*/in.ufo: first.json = dump(Font::load(in.ufo)), r.ufo = Font::save of
+//!       that font, second.json = dump(Font::load(r.ufo)); *_error.txt where a step failed
+//!       (first_error.txt: the input does not load, which is not a failure of the property).
+use crate::util::{catch, write_file, Args, Rng};
+use norad::{Font, QuoteChar, WriteOptions};
+use serde_json::{json, Value as J};
+use std::path::{Path, PathBuf};
+
+#[path = "fontio.rs"]
+pub mod fontio;
+#[path = "fontio_gen.rs"]
+pub mod fontio_gen;
+
+fn opt<'a>(a: &'a Args, name: &str) -> Option<&'a str> {
+    a.extra.iter().position(|x| x == name).and_then(|i| a.extra.get(i + 1)).map(|s| s.as_str())
+}
+
+fn pretty(j: &J) -> String {
+    serde_json::to_string_pretty(j).unwrap()
+}
+
+fn load_dump(ufo: &Path) -> Result<J, String> {
+    match catch(|| Font::load(ufo)) {
+        Err(p) => Err(format!("PANIC {}", p)),
+        Ok(Err(e)) => Err(format!("{:?}", e)),
+        Ok(Ok(f)) => catch(|| fontio::dump_font(&f)).map_err(|p| format!("PANIC in dump {}", p)),
+    }
+}
+
+pub fn main(a: &Args) {
+    if let Some(ufo) = opt(a, "--dump") {
+        let to = opt(a, "--to").expect("--to FILE");
+        let j = match load_dump(Path::new(ufo)) {
+            Ok(j) => j,
+            Err(e) => json!({"__load_error__": e}),
+        };
+        write_file(Path::new(to), &pretty(&j));
+        return;
+    }
+    if let Some(dir) = opt(a, "--load") {
+        let mut cases: Vec<PathBuf> = std::fs::read_dir(dir)
+            .expect("cannot list --load directory")
+            .filter_map(|e| e.ok().map(|e| e.path()))
+            .filter(|p| p.join("w.ufo").is_dir())
+            .collect();
+        cases.sort();
+        for c in cases {
+            let _ = std::fs::remove_file(c.join("loaded.json"));
+            let _ = std::fs::remove_file(c.join("load_error.txt"));
+            match load_dump(&c.join("w.ufo")) {
+                Ok(j) => write_file(&c.join("loaded.json"), &pretty(&j)),
+                Err(e) => write_file(&c.join("load_error.txt"), &e),
+            }
+        }
+        return;
+    }
+
+    if let Some(dir) = opt(a, "--resave") {
+        let mut cases: Vec<PathBuf> = std::fs::read_dir(dir)
+            .expect("cannot list --resave directory")
+            .filter_map(|e| e.ok().map(|e| e.path()))
+            .filter(|p| p.join("in.ufo").is_dir())
+            .collect();
+        cases.sort();
+        for c in cases {
+            for f in ["first.json", "second.json", "first_error.txt", "save_error.txt", "second_error.txt"] {
+                let _ = std::fs::remove_file(c.join(f));
+            }
+            let _ = std::fs::remove_dir_all(c.join("r.ufo"));
+            let font = match catch(|| Font::load(c.join("in.ufo"))) {
+                Err(p) => {
+                    write_file(&c.join("first_error.txt"), &format!("PANIC {}", p));
+                    continue;
+                }
+                Ok(Err(e)) => {
+                    write_file(&c.join("first_error.txt"), &format!("{:?}", e));
+                    continue;
+                }
+                Ok(Ok(f)) => f,
+            };
+            match catch(|| fontio::dump_font(&font)) {
+                Ok(j) => write_file(&c.join("first.json"), &pretty(&j)),
+                Err(p) => {
+                    write_file(&c.join("first_error.txt"), &format!("PANIC in dump {}", p));
+                    continue;
+                }
+            }
+            match catch(|| font.save(c.join("r.ufo"))) {
+                Err(p) => write_file(&c.join("save_error.txt"), &format!("PANIC {}", p)),
+                Ok(Err(e)) => write_file(&c.join("save_error.txt"), &format!("{:?}", e)),
+                Ok(Ok(())) => match load_dump(&c.join("r.ufo")) {
+                    Ok(j) => write_file(&c.join("second.json"), &pretty(&j)),
+                    Err(e) => write_file(&c.join("second_error.txt"), &e),
+                },
+            }
+        }
+        return;
+    }
+
+    let two_opts = a.extra.iter().any(|x| x == "--two-opts");
+    let given: Option<J> = opt(a, "--font").map(|f| {
+        serde_json::from_str(&std::fs::read_to_string(f).expect("cannot read --font file")).expect("--font file is not JSON")
+    });
+    // --fonts FILE: a JSON array of abstract fonts, one case each
+    let given_many: Option<Vec<J>> = opt(a, "--fonts").map(|f| {
+        let j: J = serde_json::from_str(&std::fs::read_to_string(f).expect("cannot read --fonts file")).expect("--fonts file is not JSON");
+        j.as_array().expect("--fonts file must hold an array").clone()
+    });
+    let count: u64 = if let Some(v) = &given_many { v.len() as u64 } else if given.is_some() { 1 } else { opt(a, "--count").and_then(|s| s.parse().ok()).unwrap_or(if a.thorough() { 2000 } else { 200 }) };
+    let fixed_size: Option<u32> = opt(a, "--size").and_then(|s| s.parse().ok());
+    let classes: Vec<String> = opt(a, "--gen").map(|s| s.split(',').map(|x| x.to_string()).collect()).unwrap_or_default();
+    let gopts = fontio_gen::GenOpts::from_names(&classes);
+    std::fs::create_dir_all(&a.out).unwrap();
+    let mut master = Rng::new(a.seed);
+    let mut summary = Vec::new();
+    for k in 0..count {
+        let mut rng = master.fork();
+        let dir = a.out.join(format!("case_{}", k));
+        std::fs::create_dir_all(&dir).unwrap();
+        let size = fixed_size.unwrap_or_else(|| rng.below(3) as u32);
+        let font_json = match (&given_many, &given) {
+            (Some(v), _) => v[k as usize].clone(),
+            (None, Some(j)) => j.clone(),
+            (None, None) => fontio_gen::gen_font_with(&mut rng, size, &gopts),
+        };
+        write_file(&dir.join("font.json"), &pretty(&font_json));
+        let (ic, iw, q) = (rng.below(2), rng.below(9), rng.below(2));
+        let default_opts = rng.below(3) == 0;
+        let (ic2, iw2, q2) = (rng.below(2), rng.below(9), rng.below(2));
+        // --options / --options2 JSON: fixed write options (replay)
+        let fixed = |name: &str| -> Option<(bool, u64, u64, u64)> {
+            opt(a, name).and_then(|t| serde_json::from_str::<J>(t).ok()).map(|j| {
+                (
+                    j["default"].as_bool().unwrap_or(false),
+                    if j["indent_char"].as_str() == Some("space") { 1 } else { 0 },
+                    j["indent_width"].as_u64().unwrap_or(1),
+                    if j["single_quote"].as_bool().unwrap_or(false) { 1 } else { 0 },
+                )
+            })
+        };
+        let (default_opts, ic, iw, q) = fixed("--options").unwrap_or((default_opts, ic, iw, q));
+        let (default2, ic2, iw2, q2) = fixed("--options2").unwrap_or((false, ic2, iw2, q2));
+        let mk = |dflt: bool, ic: u64, iw: u64, q: u64| -> (WriteOptions, J) {
+            let mut wo = WriteOptions::default();
+            if !dflt {
+                wo = wo.indent(if ic == 0 { WriteOptions::TAB } else { WriteOptions::SPACE }, iw as usize);
+                if q == 1 {
+                    wo = wo.quote_char(QuoteChar::Single);
+                }
+            }
+            (wo, json!({"default": dflt, "indent_char": if ic == 0 { "tab" } else { "space" }, "indent_width": iw, "single_quote": q == 1}))
+        };
+        let mut status = "ok";
+        let built = match catch(|| fontio::build_font(&font_json)) {
+            Err(p) => Err(format!("PANIC {}", p)),
+            Ok(r) => r,
+        };
+        match built {
+            Err(e) => {
+                write_file(&dir.join("build_error.txt"), &e);
+                status = "build_error";
+            }
+            Ok(font) => {
+                write_file(&dir.join("built.json"), &pretty(&fontio::dump_font(&font)));
+                // the default (one tab) in a third of the cases, otherwise char x width 0..8
+                let (wo, oj) = mk(default_opts, ic, iw, q);
+                write_file(&dir.join("options.json"), &pretty(&oj));
+                if two_opts {
+                    let (wo2, oj2) = mk(default2, ic2, iw2, q2);
+                    write_file(&dir.join("options2.json"), &pretty(&oj2));
+                    let ufo2 = dir.join("n2.ufo");
+                    match catch(|| font.save_with_options(&ufo2, &wo2)) {
+                        Err(p) => write_file(&dir.join("save2_error.txt"), &format!("PANIC {}", p)),
+                        Ok(Err(e)) => write_file(&dir.join("save2_error.txt"), &format!("{:?}", e)),
+                        Ok(Ok(())) => match load_dump(&ufo2) {
+                            Ok(j) => write_file(&dir.join("loaded2.json"), &pretty(&j)),
+                            Err(e) => write_file(&dir.join("load2_error.txt"), &e),
+                        },
+                    }
+                }
+                let ufo = dir.join("n.ufo");
+                match catch(|| font.save_with_options(&ufo, &wo)) {
+                    Err(p) => {
+                        write_file(&dir.join("save_error.txt"), &format!("PANIC {}", p));
+                        status = "save_error";
+                    }
+                    Ok(Err(e)) => {
+                        write_file(&dir.join("save_error.txt"), &format!("{:?}", e));
+                        status = "save_error";
+                    }
+                    Ok(Ok(())) => match load_dump(&ufo) {
+                        Ok(j) => write_file(&dir.join("loaded.json"), &pretty(&j)),
+                        Err(e) => {
+                            write_file(&dir.join("load_error.txt"), &e);
+                            status = "load_error";
+                        }
+                    },
+                }
+            }
+        }
+        summary.push(json!({"case": k, "size": size, "status": status}));
+    }
+    write_file(&a.out.join("summary.json"), &pretty(&json!({"seed": a.seed, "count": count, "classes": classes, "cases": summary})));
 }
